@@ -305,3 +305,129 @@ def ex3_acyclic(ctx: Ctx, shapes: Shapes):
     ctx.ob(rule, "<package>", "call graph", not cycle, "recursive cycle: " + " -> ".join(cycle[0]) if cycle else "",
            sample=f"{len(graph)} functions, {sum(len(v) for v in graph.values())} edges, acyclic")
     return graph
+
+
+def _none_confirmed(model, shapes, a, st, fi):
+    """Before a possibly-None value is reported: when it is the result of a package function, follow the call with the
+    parameters bound to the caller's argument terms under the caller's facts (what the callee returns for *these*
+    arguments, e.g. a truthy one, may exclude None although its summary does not). True = still possibly None."""
+    from ..interp import Analyzer, State
+    if a[0] != "call" or a[1][0] != "global" or a[1][1] not in model.modules:
+        return True
+    rr = model.resolve_global(a[1][1], a[1][2])
+    if not rr or rr[0] not in ("func", "memo_alias") or rr[1].backend != "py":
+        return True
+    target = rr[1]
+    an = target.node.args
+    pos = [x.arg for x in an.posonlyargs + an.args]
+    args = [x for x in a[2]]
+    if any(x[0] == "star" for x in args) or any(k is None for k, _v in a[3]):
+        return True
+    bind = dict(zip(pos, args))
+    if len(args) > len(pos):
+        if an.vararg is None:
+            return True
+        bind[an.vararg.arg] = ("tuple", tuple(args[len(pos):]))
+    elif an.vararg is not None:
+        bind[an.vararg.arg] = ("tuple", ())
+    kw = {k: v for k, v in a[3]}
+    named = {k: v for k, v in kw.items() if k in pos or k in [x.arg for x in an.kwonlyargs]}
+    bind.update(named)
+    if an.kwarg is not None:
+        bind[an.kwarg.arg] = ("dict", tuple((("const", k), v) for k, v in kw.items() if k not in named))
+    try:
+        res = Analyzer(model, target, bind).run(State(facts=dict(st.facts)))
+    except AnalysisError:
+        return True
+    for s2, v, _n in res.returns:
+        if shapes_contradiction(shapes, s2, target, res):
+            continue
+        shp = shapes.shape(v, s2.facts, target, None, res)
+        if v == NONE or (shp and shp != TOP and N in shp and truth(("cmp", "Is", v, NONE), s2.facts) is not False):
+            return True
+    return False
+
+
+def sh6(ctx: Ctx, shapes: Shapes):
+    """SH6: the five text slots of a URL only ever receive text. Every argument of the internal constructors and every store
+    into `_scheme`/`_netloc`/`_path`/`_query`/`_fragment` has a shape that excludes None (a None slot prints, compares and
+    pickles differently from '' and crashes the accessors). Decided where the shape is known; unknown values are not judged."""
+    model = ctx.model
+    rule = "SH6"
+    ctx.rule(rule, floor=20, what="constructor sinks and slot stores never receive None")
+    SINKS = ("from_parts", "from_parts_uncached")
+    SLOTS = ("_scheme", "_netloc", "_path", "_query", "_fragment")
+    for fi in functions(model):
+        if fi.name in ("__setstate__",):
+            continue        # restores whatever was pickled
+        r = analyze(model, fi)
+        sites = {}
+        for e in r.by_kind("call"):
+            if e.func[0] == "global" and e.func[2] in SINKS and len(e.args) == 5 and not e.kwargs:
+                for slot, a in zip(SLOTS, e.args):
+                    sites.setdefault((id(e.node), slot), [e.node, f"{e.func[2]}(.. {slot}={show(a)[:50]} ..)", []])[2].append((a, e.state))
+        for e in r.by_kind("store_attr"):
+            if e.attr in SLOTS and e.obj[0] == "new":
+                sites.setdefault((id(e.node), e.attr), [e.node, f"<new URL>.{e.attr} = {show(e.value)[:50]}", []])[2].append((e.value, e.state))
+        for node, cons, vals in sites.values():
+            ctx.instance(rule)
+            bad = []
+            for a, st in vals:
+                if a[0] == "star":
+                    continue
+                if shapes_contradiction(shapes, st, fi, r):
+                    continue
+                shp = shapes.shape(a, st.facts, fi, None, r)
+                if shp and shp != TOP and N in shp and truth(("cmp", "Is", a, NONE), st.facts) is not False and \
+                        _none_confirmed(model, shapes, a, st, fi):
+                    bad.append(sorted(shp))
+            ctx.ob(rule, fi.qual, cons, not bad,
+                   f"a value that can be None (shape {bad[0] if bad else ''}) is stored in a text slot of the new URL: it would "
+                   "compare unequal to '' and break the accessors", where(fi, node), sample="never None")
+
+
+def sh7(ctx: Ctx, shapes: Shapes):
+    """SH7: a value that can be None is not handed to a package function whose parameter is declared as plain text / number
+    (the callee dereferences it: `None.isascii()` is an AttributeError, not the ValueError/TypeError the API promises).
+    Judged only where the argument's shape is known."""
+    model = ctx.model
+    rule = "SH7"
+    ctx.rule(rule, floor=20, what="possibly-None values are not passed to parameters declared non-optional")
+    for fi in functions(model):
+        if fi.name in ("__setstate__",):
+            continue
+        r = analyze(model, fi)
+        sites = {}
+        for e in r.by_kind("call"):
+            f = e.func
+            target = None
+            if f[0] == "global" and f[1] in model.modules:
+                rr = model.resolve_global(f[1], f[2])
+                if rr and rr[0] in ("func", "memo_alias"):
+                    target = rr[1]
+            if target is None or target.backend != "py":
+                continue
+            params = [p for p in target.params if p not in ("self", "cls")]
+            bound = dict(zip(params, [a for a in e.args if a[0] != "star"])) if not any(a[0] == "star" for a in e.args) else {}
+            bound.update({k: v for k, v in e.kwargs if k})
+            for p_, a in bound.items():
+                ann = target.param_annotation(p_)
+                if ann is None:
+                    continue
+                txt = ann.value if isinstance(ann, ast.Constant) and isinstance(ann.value, str) else ast.unparse(ann)
+                if txt not in ("str", "int", "bool"):
+                    continue
+                sites.setdefault((id(e.node), p_), [e.node, f"{f[2]}({p_}={show(a)[:50]})", txt, []])[3].append((a, e.state))
+        for node, cons, txt, vals in sites.values():
+            ctx.instance(rule)
+            bad = []
+            for a, st in vals:
+                if shapes_contradiction(shapes, st, fi, r):
+                    continue
+                shp = shapes.shape(a, st.facts, fi, None, r)
+                if shp and shp != TOP and N in shp and truth(("cmp", "Is", a, NONE), st.facts) is not False and \
+                        _none_confirmed(model, shapes, a, st, fi):
+                    bad.append(sorted(shp))
+            ctx.ob(rule, fi.qual, cons, not bad,
+                   f"a value that can be None (shape {bad[0] if bad else ''}) is passed to a parameter declared `{txt}`: the callee "
+                   "would fail with AttributeError/TypeError from its own body", where(fi, node), sample="not None on every path")
